@@ -427,7 +427,7 @@ pub fn run_elf_load(args: &Args) -> Result<()> {
     let threads = args.num("threads", 8) as usize;
     std::fs::create_dir_all(&outdir)?;
     let thorough = tier == "thorough";
-    let total = if thorough { 4000 } else { 480 };
+    let total = if thorough { 2000 } else { 480 };
     // --only k1,k2,...: regenerate just these files (replay; the generator is a function of seed, tier and k)
     let only: Option<std::sync::Arc<Vec<usize>>> = args.get("only").map(|s| std::sync::Arc::new(s.split(',').filter_map(|x| x.parse().ok()).collect()));
     let mut handles = Vec::new();
@@ -446,9 +446,9 @@ pub fn run_elf_load(args: &Args) -> Result<()> {
                     }
                 }
                 let mut rng = Rng::new(seed ^ hash_str("elf"), k as u64);
-                let big = thorough && k % 61 == 3; // ~65 files with segments up to 16 KiB, spread over all threads
+                let big = thorough && k % 61 == 3; // ~33 files with segments up to 8 KiB, spread over all threads
                 let o = GenOpts {
-                    max_seg: if big { 16384 } else if thorough { 2048 } else { 512 },
+                    max_seg: if big { 8192 } else if thorough { 2048 } else { 512 },
                     max_got: if thorough { 64 } else { 16 },
                     max_syms: if thorough { 200 } else { 24 },
                     max_words: if thorough { 32 } else { 10 },
